@@ -17,7 +17,7 @@ from vf.driver import Harness
 
 PROPERTY = "C20"
 STATES = ["unfired", "fired(int)", "fired(None)", "fired(nested tuple)", "failed(ValueError)", "failed(KeyError)",
-          "failed(RuntimeError)"]
+          "failed(RuntimeError)", "fired, but waiting on an unfired Deferred returned by a callback"]
 EXC = {4: ValueError, 5: KeyError, 6: RuntimeError}
 PRE = ["none", "addCallback(wrap)", "addBoth(passthrough)", "addErrback(recover)"]
 INNER = ["Always", "Never", "Equals(q)"]
@@ -33,6 +33,10 @@ def make_deferred(state, pre, x):
     elif pre == 3:
         d.addErrback(lambda f: "recovered")
     if state == 0:
+        return d, "none", None
+    if state == 7:
+        d.addCallback(lambda v: defer.Deferred())       # the chain is paused on a Deferred that has not fired
+        d.callback(V(x))
         return d, "none", None
     if state in (1, 2, 3):
         val = {1: V(x), 2: None, 3: (V(x), (V(x), None))}[state]
@@ -102,12 +106,26 @@ def run_classify(state, pre, inner, x, q):
     return problems
 
 
-def run_preserve(state, pre, which, order, x, w):
+def run_preserve(state, pre, which, order, x, w, fail_later=False):
     """Results stay intact for callbacks added after matching; order of match / fire / add-callback."""
     problems = []
     matcher = [has_no_result(), succeeded(Always()), failed(Always())][which]
     seen = []
-    if state == 0:
+    if state == 0 and fail_later:
+        # matched while unfired, later fired with a FAILURE: the failure must reach an errback added afterwards
+        d = defer.Deferred()
+        matcher.match(d)
+        if order == 2:
+            matcher.match(d)
+        if order == 1:
+            d.addErrback(seen.append)
+            d.errback(Failure(ValueError(V(w))))
+        else:
+            d.errback(Failure(ValueError(V(w))))
+            d.addErrback(seen.append)
+        if len(seen) != 1 or not isinstance(seen[0], Failure) or not (seen[0].value.args[0] == V(w)):
+            problems.append("a failure fired after matching did not reach the later errback intact: %r" % (seen,))
+    elif state == 0:
         d = defer.Deferred()
         if order == 0:          # match, fire, add callback
             matcher.match(d)
@@ -207,23 +225,24 @@ def run_sync(stage, kind, flav):
 # --- harnesses ---------------------------------------------------------------------------------
 def h_classify(state: int, pre: int, inner: int, x: int, q: int) -> bool:
     """
-    pre: 0 <= state < 7 and 0 <= pre < 4 and 0 <= inner < 3
+    pre: 0 <= state < 8 and 0 <= pre < 4 and 0 <= inner < 3
     post: _
     """
-    v = dict(state=ch.sel("state", state, 7), pre=ch.sel("pre", pre, 4), inner=ch.sel("inner", inner, 3))
+    v = dict(state=ch.sel("state", state, 8), pre=ch.sel("pre", pre, 4), inner=ch.sel("inner", inner, 3))
     problems = run_classify(v["state"], v["pre"], v["inner"], x, q)
     ch.LAST["problems"] = problems
     return ch.finish(not problems, v, nontrivial=True, sym=("x", "q"))
 
 
-def h_preserve(state: int, pre: int, which: int, order: int, x: int, w: int) -> bool:
+def h_preserve(state: int, pre: int, which: int, order: int, x: int, w: int, fail_later: bool) -> bool:
     """
     pre: 0 <= state < 7 and 0 <= pre < 4 and 0 <= which < 3 and 0 <= order < 3
     post: _
     """
     v = dict(state=ch.sel("state", state, 7), pre=ch.sel("pre", pre, 4), which=ch.sel("which", which, 3),
              order=ch.sel("order", order, 3))
-    problems = run_preserve(v["state"], v["pre"], v["which"], v["order"], x, w)
+    v["fail_later"] = ch.cbool(fail_later) if v["state"] == 0 else False
+    problems = run_preserve(v["state"], v["pre"], v["which"], v["order"], x, w, v["fail_later"])
     ch.LAST["problems"] = problems
     return ch.finish(not problems, v, nontrivial=True, sym=("x", "w"))
 
@@ -254,15 +273,15 @@ def h_sync(stage: int, kind: int, flav: int) -> bool:
 
 
 HARNESSES = [
-    Harness("classify", h_classify, lambda tier: [({"state": s}, 600) for s in range(7)],
+    Harness("classify", h_classify, lambda tier: [({"state": s}, 600) for s in range(8)],
             bounds={"quick": "Deferred state {unfired, fired with a symbolic int / None / nested tuple, failed with one of 3 exception "
-                             "classes carrying a symbolic int} x pre-attached callback {none, wrapping callback, pass-through addBoth, "
+                             "classes carrying a symbolic int, fired but paused on an unfired Deferred returned by a callback} x pre-attached callback {none, wrapping callback, pass-through addBoth, "
                              "recovering errback} x inner matcher {Always, Never, Equals(symbolic q) / AfterPreprocessing on the failure}: "
                              "mutual exclusivity on three fresh Deferreds, succeeded(m)/failed(m), extract_result, called flag unchanged"},
             rule="every path non-trivial", sym=("x", "q")),
     Harness("preserve", h_preserve, lambda tier: [({"state": s}, 600) for s in range(7)],
             bounds={"quick": "each matcher applied (once or twice) in every order of match / fire / add-callback on unfired Deferreds "
-                             "fired later with a symbolic value, and on fired ones: callbacks added afterwards receive the original value"},
+                             "fired later with a symbolic value or with a failure, and on fired ones: callbacks/errbacks added afterwards receive the original result"},
             rule="every path non-trivial", sym=("x", "w")),
     Harness("handled", h_handled, lambda tier: [({}, 300)],
             bounds={"quick": "failed Deferred (3 exception classes) inspected by succeeded(Always()), failed(Always()), failed(Never()), "
@@ -276,5 +295,5 @@ HARNESSES = [
             fidelity=lambda seed: [(s, k, f) for s in range(4) for k in range(6) for f in (2, 4)],
             observe=lambda s, k, f: run_sync(s, SYNC_KINDS[k], f)),
 ]
-OUTSIDE = ["Deferreds whose result is itself an unfired Deferred (chained/paused)",
+OUTSIDE = ["Deferreds paused with pause() (a callback returning an unfired Deferred is covered)",
            "has_no_result() applied to a failed Deferred does not mark the failure handled (not demanded by the statement)"]
